@@ -14,6 +14,11 @@ a jail pre-populated with sentinel files (including the names the sinks would
 use); everything around the output directory is snapshotted (path, type,
 size, mtime, sha256) before and after.  The real accept/reject decision is
 compared with the spec's guard (reported as drift).
+A fifth peer-controlled value lives outside the transfer package: the root
+name of the signaling manifest offer, which `thru join` uses to look up and
+clear resume data before the transfer starts.  Driver paths-binary offers
+hostile root names to the real binary (scripted host, user answers accept +
+overwrite / resume) inside the same kind of jail.
 """
 import os
 import vlib
@@ -43,12 +48,19 @@ def run(tier, seed):
         res = vlib.merge_results([res, res3])
     for viol in res['violations']:
         v.violation(viol['sig'], viol.get('replay'))
+    # the application level: hostile root names in the signaling offer against the real `thru join` in a jail
+    srv = vlib.build_repo_bin('./cmd/thruserv', 'thruserv')
+    thru = vlib.build_repo_bin('./cmd/thru', 'thru')
+    pb = vlib.run_vh_sharded(['paths-binary', '-thruserv', srv, '-thru', thru, '-edges', ep, '-sample', '3' if tier == "quick" else '1'], 6, timeout=1800)
+    for viol in pb['violations']:
+        v.violation(viol['sig'], viol.get('replay'))
     if res['drift']:
         print("DRIFT C07: %d cases where the real accept/reject decision differs from Paths.tla's guard (not a verdict)" % res['drift'])
         v.notes.append(str(res['drift_samples'][:2])[:500])
     v.coverage = dict(evaluations=res['behaviours'], distinct_nontrivial=res['distinct'],
                       rule="TLC enumerates field x segment sequence (<= %d segments over 7 classes) x absolute x root-dir mode x resume; each reached case is one hostile transfer; non-trivial = the value is rejected by the guard or would escape without it" % maxlen,
                       samples=res['samples'][:8], outcomes=res['extra'].get('outcomes'), exhaustive=True,
+                      offer_root_names_against_the_binary=dict(runs=pb['behaviours'], outcomes=pb['extra'].get('outcomes')),
                       tlc=dict(cases=r['edges'], negative_control_refuted=rn['violated']), accept_reject_drift=res['drift'])
     v.assumptions = ["Unix path semantics; symlinks already present inside the output directory are not considered",
                      "segment spellings: names, '..', '.', empty, 'a..b', 'c\\\\..\\\\d', '...' (thorough: two spellings each)"]
